@@ -168,6 +168,7 @@ def generate(rng, tier, profile='default'):
   if rng.random() < 0.35:
     lengths.append(pick_len())
   series, kinds, lens = [], [], []
+  pairs = []      # (original, look-alike): confusable series
   for n in lengths:
     base = _base(rng, n)
     first = len(series)
@@ -180,7 +181,9 @@ def generate(rng, tier, profile='default'):
     # multiset / end points but another order -- what a cheap "nothing
     # changed" test would confuse
     for _ in range(rng.choice((0, 1, 1, 2))):
-      src = list(series[rng.randrange(first, len(series))])
+      src_idx = rng.randrange(first, len(series))
+      src = list(series[src_idx])
+      pairs.append((src_idx, len(series)))
       how = rng.choice(('perm', 'rev', 'same_ends', 'same_mean', 'near_dup',
                         'near_dup', 'affine', 'bitcast', 'crc_twin'))
       if how == 'crc_twin' and n >= 4 and all(
@@ -232,12 +235,34 @@ def generate(rng, tier, profile='default'):
   p_alias = rng.choice((0.0, 0.0, 0.0, 0.15))
   p_snap = rng.choice((0.03, 0.08, 0.15))
   p_churn = rng.choice((0.0, 0.0, 0.0, 0.0, 0.02))
+  p_pair = rng.choice((0.0, 0.05, 0.12)) if pairs else 0.0
   objs = [0]
   cur_len = {0: lengths[0]}
   ops = []
   for _ in range(n_ops):
     o = rng.choice(objs)
     r = rng.random()
+    usable = [pr for pr in pairs if lens[pr[0]] == cur_len[o]] if p_pair else []
+    if usable and rng.random() < p_pair:
+      # a confusable pair back to back: one series, a read, its look-alike,
+      # the same read again -- what any "nothing changed" shortcut must survive
+      a, b = rng.choice(usable)
+      if rng.random() < 0.5:
+        a, b = b, a
+      rd = _gen_read(rng, bias_verdict)
+      rd['o'] = o
+      how = rng.choice(('array', 'array', 'list'))
+      if rng.random() < 0.75:
+        for sidx in (a, b):
+          ops.append({'op': 'set_x', 'o': o, 's': sidx, 'as': how})
+          ops.append(dict(rd))
+      else:
+        c = rng.choice(idx_by_len[cur_len[o]])
+        for sidx in (a, b):
+          ops.append({'op': 'set_y', 'o': o, 's': sidx, 'as': how})
+          ops.append({'op': 'set_x', 'o': o, 's': c, 'as': how})
+          ops.append(dict(rd))
+      continue
     if r < p_fault:
       which = rng.choice(('x', 'x', 'y'))
       how = (rng.choice(('len_short', 'len_long', '2d', 'tiny', 'empty'))
